@@ -7,4 +7,14 @@ EXTENDS Naturals, Sequences
 
 (* C38: placeholder, FALSE unless the finding is listed (see known-findings.jsonl) *)
 KF_C38_lcs(ev) == FALSE
+
+(* C05: a change that keeps the size of a union (a member of the union, or of an aggregate nested by value in it, changes  *)
+(* to a type of the same size) is categorized HARMLESS_UNION_CHANGE and the harmless category of the union node outweighs   *)
+(* the uncategorized change below it: the whole interface is filtered out by default.  The event is classified as this      *)
+(* finding only if the model says the mutated type is a union or lies by value inside one, the edit is a member-type       *)
+(* change, and the default report filtered everything (exit 0).                                                            *)
+KF_C05_union(ev) == ev.inUnion /\ ev.kinds = <<"member-type">> /\ ev.exit = 0
+
+(* C04: FALSE unless listed *)
+KF_C04_unescaped(ev) == FALSE
 ====================================================================================================
